@@ -111,7 +111,7 @@ add(
 add(
     "C17",
     "fault enumeration over generated seed files: exhaustive truncations, single-bit flips, header variations and single structural faults per file; random bytes/splices; judged by a coherence checker and a reference reader",
-    "Fault enumeration: for each generated seed file (quick 48, thorough 1600 files of 30-800 bytes) one fault family is enumerated completely - every cut point, every bit of every byte, 3 replacement values at every position, every other value of each header byte plus short headers and version-field values, or every single structural fault (every ordered pair of UUID-bearing positions made equal, same-kind triples sharing one UUID, every reference slot x missing / each wrong kind, every enum field x unknown numbers, every UUID field x lengths 0/15/17, payload-less blocks and expressions, contents longer than size) - and random byte strings / splices are tried; each file must be rejected (ValueError where the property names it) or yield an IR that passes the coherence checker (C03+C04 by full walk, distinct UUIDs, typed and attached references, bytes <= size, Enum-typed attributes, re-savable) and equals what a reference reader makes of the file; every unmodified seed must load. Exhaustive per seed file and family, sampled over seed files; hangs are bounded by a per-file 20 s breaker.",
+    "Fault enumeration: for each generated seed file (quick 48, thorough 1600 files of 30-800 bytes) one fault family is enumerated completely - every cut point, every bit of every byte, 3 replacement values at every position, every other value of each header byte plus short headers and version-field values, or every single structural fault (every ordered pair of UUID-bearing positions made equal, same-kind triples sharing one UUID, every reference slot x missing / each wrong kind, every enum field x unknown numbers, every UUID field x lengths 0/15/17, payload-less blocks and expressions, contents longer than size) - and random byte strings / splices are tried; each file must be rejected (ValueError where the property names it) or yield an IR that passes the coherence checker (C03+C04 by full walk, distinct UUIDs, typed and attached references, bytes <= size, Enum-typed attributes, re-savable) and equals what a reference reader makes of the file; every unmodified seed must load. Exhaustive per seed file and family, sampled over seed files; hangs are bounded by a per-file 20 s breaker, and four scale files (12k modules, 30k symbols, 30k blocks, 20k edges) must load within it.",
     "Trusts vlib/coherence.py, vlib/refmsg.py (reference reader), vlib/spec.py + irbuild.py (seed files), the protobuf runtime.",
     category="fault_enumeration",
 )
